@@ -9,7 +9,9 @@
       * per-exit balance identity, non-negativity, exit 3 unreachable: proved for all inputs;
       * closed balance / constitutive statements: [_partial] -- they assume that the solver
         did not leave on exit 7 (FindRoot returned on its iteration / convergenceLimit test
-        with |delta| >= massBalanceLimit) and bias < 0.999;
+        with |delta| >= massBalanceLimit) and bias < 0.999; for the LINEAR storage law (m = 1)
+        exit 7 is proved impossible and the closed balance statement is complete
+        ([C11_sr_balance_closed_linear]);
       * two clauses are REFUTED by concrete witnesses inside the stated domain
         ([C11_sr_highbias_balance_refuted], [C11_sr_maxflow_lateral_refuted]); a third failure
         class (exit 7 reached with tiny flows) cannot be evaluated symbolically over R and is
@@ -17,7 +19,8 @@
 From Coq Require Import ZArith Reals List.
 From OW Require Import Base.Arith Base.RInst Base.Mealy.
 From OW Require Import Kernels.Muskingum Kernels.Lag Kernels.StorageRouting.
-From OW Require Import KernelProofs.Muskingum KernelProofs.Lag KernelProofs.StorageRouting KernelProofs.StorageRoutingBound.
+From OW Require Import KernelProofs.Muskingum KernelProofs.Lag KernelProofs.StorageRouting KernelProofs.StorageRoutingBound
+  KernelProofs.StorageRoutingLinear.
 Import ListNotations.
 Local Open Scope R_scope.
 
@@ -194,6 +197,29 @@ Theorem C11_sr_balance_closed_partial : forall bias k m area dead dt s pin pout 
   trace_ok (sr_setup bias k m area dead dt) (sr_init s pin pout) (zip4 ins lats rain evp) os.
 Proof. exact sr_kernel_closed_partial. Qed.
 Print Assumptions C11_sr_balance_closed_partial.
+
+(** LINEAR storage law (RoutingPower = 1, or within 0.001 of 1 with non-zero bias): the residual is
+    affine on the solver's bracket, FindRoot's first secant trial is the exact root, exit 7 is never
+    taken -- the closed statement holds with NO assumption about the solver: at every timestep of
+    every run the balance error is in [0, massBalanceLimit) and 0 whenever outflow > 0. *)
+Theorem C11_sr_balance_closed_linear : forall bias k m area dead dt s pin pout rest ins lats rain evp os sts,
+  sr_stable bias k m dead dt -> bias < 999 / 1000 -> sr_linear_params bias m ->
+  0 <= s -> Forall (fun v => 0 <= v) ins -> Forall (fun v => 0 <= v) lats ->
+  storage_routing_run [bias; k; m; area; dead; dt] (s :: pin :: pout :: rest) [ins; lats; rain; evp] = Some (os, sts) ->
+  trace_ok (sr_setup bias k m area dead dt) (sr_init s pin pout) (zip4 ins lats rain evp) os /\
+  Forall (fun o : sr_output => snd o <> 7%nat) os.
+Proof. exact sr_balance_closed_linear. Qed.
+Print Assumptions C11_sr_balance_closed_linear.
+
+(** FindRoot on an affine objective with a sign change: the result balances to the tolerance. *)
+Theorem C11_find_root_affine : forall f fdx tol conv a b A B,
+  (forall q, a <= q <= b -> f q = Some (A * q + B)) ->
+  A * a + B < 0 -> 0 < A * b + B -> a < b -> 0 < tol ->
+  forall x0 n x d, a <= x0 <= b -> (0 < n)%nat ->
+  Kernels.StorageRoutingRoot.sr_find_root f fdx tol conv x0 a b n = Some (x, d) ->
+  a <= x <= b /\ d = A * x + B /\ Rabs d < tol.
+Proof. exact KernelProofs.StorageRoutingRoot.sr_find_root_affine. Qed.
+Print Assumptions C11_find_root_affine.
 
 (** Constitutive relation, zero (or snapped-to-zero) bias, positive outflow.  PARTIAL: exits 2, 5, 6
     and exit 4 without lateral inflow. *)
